@@ -120,6 +120,7 @@ class VStructuralTranslatorL4(
     return '\n\n'.join( subcomp_decls )
 
   def rtlir_tr_subcomp_decl( s, m, c_id, c_rtype, c_array_type, port_conns, ifc_conns ):
+    s.check_decl( c_id, f"Note: {c_id} is a sub-component of {m}" )
 
     def pretty_comment( string ):
       comments = [
